@@ -338,6 +338,10 @@ Fixpoint skip_comment (fuel : nat) (s : scanner) : sres unit :=
     else skip_comment fuel s
   end.
 
+(* a file-level binding `ident = v`: the value is expanded now, in the scope as it is *)
+Definition bind_step (vs : vars) (ident : bytes) (v : evalstring) : vars :=
+  insert_b ident (evaluate [vars_env vs] v) vs.
+
 (* Parser::read: next statement, or None at the end; file-level bindings are evaluated and
    stored as they are met *)
 Fixpoint parser_read (fixed : bool) (fuel : nat) (s : scanner) (vs : vars)
@@ -363,7 +367,7 @@ Fixpoint parser_read (fixed : bool) (fuel : nat) (s : scanner) (vs : vars)
       else if bytes_eqb ident (bs "pool") then sdo (st, s) <- read_pool fixed fuel s; SOk (Some st, vs) s
       else
         sdo (v, s) <- read_vardef fixed fuel s;
-        parser_read fixed fuel s (insert_b ident (evaluate [vars_env vs] v) vs)
+        parser_read fixed fuel s (bind_step vs ident v)
   end.
 
 Definition parse_fuel (buf : bytes) : nat := (4 * length buf + 8)%nat.
